@@ -9,6 +9,21 @@ CLAIMED = {
  "C03": ("invariant walker at a hook (state snapshot) after every call",
          "After every call of the C01 workloads plus an invalid-argument sweep from every swept state, the complete internal state (hook snapshot) is walked for exactly the clauses of the statement (parent exists, is a real directory and lists the child; listed names exist; entry path == key; data records == regular files; reachability from / == all keys; cwd/root absolute; lock not poisoned) and cross-checked through exists()/all_paths()/Display.",
          "Invariants are observed at call boundaries; concurrent quiescent points are covered by C04's runs.", "5/C03"),
+ "C06": ("byte-vector model monitor with re-read of every file after every call",
+         "A path -> bytes model is stepped in lock-step with seeded histories of every write/append/line helper, write() and append() handles (also held open across calls on other files), copy and move_p over 4 files with hostile data (empty, multi-byte, invalid UTF-8, embedded newlines, 4 KiB / 64 KiB, unique ids); after every call all files are re-read through read/read_all/read_lines (and std::fs::read on Stdfs) and compared, so leaks between files and aliasing are observed directly. Memfs, Vfs::Memfs and Stdfs.",
+         "A held handle is only interleaved with calls on other files; Stdfs half as uid 1000.", "5/C06"),
+ "C07": ("lock-step against std::io::Cursor (read side) and flush/drop point observer (write side)",
+         "Read side: a read() handle and a std::io::Cursor over the same bytes run every script up to depth 2/3 over reads of 5 buffer sizes, seeks with every offset in -len-1..=len+2 and i64/u64 extremes, stream_position and read_to_end for files of length 0..=5 plus random longer scripts; values, errors and the position after an error must agree, nothing may panic. Write side: every composition of 6 bytes into <= 4 chunks x flush bits x drop after every prefix for write() and append() on absent/empty/non-empty files; an independent read after every flush and after the drop must equal the bytes written so far.",
+         "Window between open and first flush of write() not judged; Stdfs offsets < 2^32.", "5/C07"),
+ "C09": ("relational before/after snapshot oracle over swept states and all path pairs",
+         "For every reference state of the bounded namespace x every ordered pair of paths x Copier options x follow (copy) and x move_p, the complete snapshot before and after the call must satisfy the clauses of the statement (source untouched, every source entry copied with same kind/bytes/target, mode rule for new entries, pre-existing kept, nothing outside the destination changed, no aliasing, move = relocation, failed move = no change). No reference model involved. Memfs exhaustively, Stdfs on C02's domain via the std::fs observer.",
+         "Owners not part of the copy relation; placement of followed links under follow not judged; on Stdfs moved relative links / process cwd follow kernel semantics.", "5/C09"),
+ "C10": ("law checker over all (link, target) position pairs",
+         "For every (link position, target position) pair over 2 names up to depth 4/5, target kind {file, dir, absent, link} and both spellings, a fresh filesystem is prepared, symlink() is called and every law of the statement is checked through the API and the snapshot (readlink_abs, readlink relative + navigation law, link exclusion, kind at creation, entry()/follow swap-once, remove/chmod/chown act on the link only, readlink* fail on non-links); Stdfs additionally through std::fs::read_link.",
+         "Stdfs dangling/link targets only for the creation step (C02 domain); Stdfs half runs as root inside its sandbox.", "5/C10"),
+ "C11": ("reference grammar evaluator + changed-set oracle",
+         "Oracle 1: a reference evaluation of the documented grammar is compared with chmod_b().sym().exec() + mode() for all 945 well-formed single clauses x 64/512 start modes x {file, dir, link}, double clauses, clearly malformed expressions and octal selectors. Oracle 2: for reference states x builder option records (all/dirs/files, sym, recurse, follow; chown uid/gid, recurse, follow) the complete post snapshot must equal the reference's changed set. Memfs exhaustively; Stdfs as root on C02's domain through the disk observer.",
+         "Leniently accepted non-grammar strings not generated; malformed later clauses, link-to-link chains and stale link kinds under follow not judged.", "5/C11"),
  "C13": ("transcript-equality monitor (direct backend vs enum wrapper) over deterministic and random histories",
          "The same call sequence (a pass calling every VirtualFileSystem method, then seeded random histories of the C01 alphabet) is executed on Memfs, Vfs::Memfs and Memfs::upcast() instances; each result and the complete hook snapshot after every call must be equal; likewise Stdfs vs Vfs::Stdfs in two sandboxes (results compared modulo the sandbox prefix, trees through std::fs). Every Entry accessor of every VfsEntry obtained is compared with the wrapped entry extracted by pattern match, before and after follow(true/false/true).",
          "Copy calls whose result depends on Memfs's per-instance hash order (failing half way / link kinds) are left out and counted; the Stdfs half runs as uid 1000; set_cwd only on Memfs.", "5/C13"),
